@@ -52,6 +52,31 @@ def check_config(cfg, w, rep):
             n_set += 1
             check_setter(cfg, w, rep, lf)
     rep.floor("writeopts_setters", n_set, 6, cfg)
+    # ... and nobody else writes them: every program-wide source of WriteOpts.time / metadata / raw_metadata is the field's
+    # own setter, a constant None (constructors, Default, tombstones) or a copy of the same field of another WriteOpts —
+    # so "when not supplied" is decided at the insert (commit time), not earlier, and nothing substitutes the caller's value.
+    # (sri and size may additionally be filled in by a commit on the declared-None edge: checked above.)
+    n_src = 0
+    for fld in ("time", "metadata", "raw_metadata"):
+        for (b_, blk_i, i_, op) in prog.field_sources("put::WriteOpts", fld):
+            n_src += 1
+            owner_lf = prog.owner_fn(b_)
+            o_ = owner_lf.outer
+            if o_.impl_self == "put::WriteOpts" and o_.name in SETTERS and SETTERS[o_.name] == fld:
+                continue
+            tm = w.sym.of_operand(b_, op) if op is not None else ("unknown", "call result")
+            alts = list(tm[1]) if tm[0] == "alt" else [tm]
+            ok_ = all((a[0] == "agg" and a[1].endswith("Option") and a[2] == "None") or
+                      (a[0] == "field" and a[1] == "put::WriteOpts" and a[2] == fld and not a[3]) or
+                      (a[0] == "call" and a[1].endswith("::default")) for a in alts)
+            if ok_:
+                rep.ob(cfg, "builder-side", "%s.%s.source" % (fn_key(owner_lf), fld), "`%s` initialises WriteOpts.%s with None / a copy" % (short(owner_lf.path), fld))
+            else:
+                rep.violation("field-writer:%s:%s" % (fn_key(owner_lf), fld),
+                              "`%s` writes WriteOpts.%s = %s outside the field's setter: the value recorded would not be what the writer attached "
+                              "(or, for the default time, not the time of the commit)" % (short(owner_lf.path), fld, term_str(tm)[:80]),
+                              loc=b_.loc(), config=cfg, rule="builder-side")
+    rep.floor("writeopts_field_sources", n_src, 3, cfg)
     # ---- schema side ----
     check_schema(cfg, w, rep, rt)
     # ---- NOW ----
